@@ -256,6 +256,11 @@ def _same_number(got, want):
     return Fraction(got) == want
 
 
+def _show(v):
+    """readable form of an expected coefficient (a Fraction that may be the exact value of a float)"""
+    return str(v) if v.denominator <= 1000 else repr(float(v))
+
+
 def judge_stoich(ctx, rxn, exp, what, text):
     ok = True
     for name in ("reac", "prod", "inact_reac", "inact_prod"):
@@ -272,7 +277,7 @@ def judge_stoich(ctx, rxn, exp, what, text):
             continue
         for k in want:
             if not _same_number(got[k], want[k]):
-                ctx.fail("coefficient:" + what, text=text, side=name, key=k, got=repr(got[k]), expected=str(want[k]))
+                ctx.fail("coefficient:" + what, text=text, side=name, key=k, got=repr(got[k]), expected=_show(want[k]))
                 ok = False
                 break
     return ok
